@@ -225,6 +225,10 @@ func main() {
 			b.cur = "dynamic"
 			b.scenarioDynamic()
 		}
+		if want["saturated"] || (all && i%4 == 1) {
+			b.cur = "saturated"
+			b.scenarioSaturated()
+		}
 	}
 	w.Close(map[string]any{"family": *scenario, "tier": *tier, "seed": px.Seed(), "repetitions": reps})
 }
